@@ -269,13 +269,27 @@ def state_spec(name, v, target, nested):
     return spec
 
 
-def etch_spec(target_exists):
-    """vm.etch(a, code) then EXTCODESIZE / call of a and of another account"""
+def etch_spec(target_exists, probe=None):
+    """vm.etch(a, code) then EXTCODESIZE / call of a and of another account.
+    probe: the symbolic address x is looked at (EXTCODESIZE / STATICCALL) before the etch and again after it: what x denotes is decided
+    afresh once the etch has created an account"""
     p = Prog()
     tgt = T1 if target_exists else 0xDD
+
+    def look():
+        if probe == "EXTCODESIZE":
+            p.items += X + ["EXTCODESIZE"]
+            p.out_top()
+        elif probe == "STATICCALL":
+            p.items += [("push", 32), ("push", 0x200), "PUSH0", "PUSH0"] + X + [("push", 0xFFFF), "STATICCALL"]
+            p.out_top()
+            p.out_from_mem(0x200, 1)
+
+    look()
     blob = e2e.sel("etch(address,bytes)").to_bytes(4, "big") + w32(tgt) + w32(64) + w32(len(ETCH_CODE)) + ETCH_CODE.ljust(32, b"\x00")
     p.datas.append(("data", "etch", blob))
     p.items += [("sizeof", "etch"), ("offsetof", "etch"), ("push", 0x80), "CODECOPY", "PUSH0", "PUSH0", ("sizeof", "etch"), ("push", 0x80), "PUSH0", ("pushn", 20, e2e.HEVM), ("push", 0xFFFF), "CALL", "POP"]
+    look()
     for a in (tgt, T2):
         p.items += [("push", a), "EXTCODESIZE"]
         p.out_top()
@@ -294,6 +308,7 @@ def etch_spec(target_exists):
 
 
 SGRID = [{"x": v} for v in (0, 1, 7, T1, 2**160 - 1, 2**255, 2**256 - 1)]
+EGRID = [{"x": v} for v in (0, T1, T2, 0xDD, ROOT, 2**160 + 0xDD)]
 
 BLOCK_OPS = {"warp": "TIMESTAMP", "roll": "NUMBER", "fee": "BASEFEE", "chainId": "CHAINID", "coinbase": "COINBASE", "difficulty": "DIFFICULTY"}
 
@@ -386,8 +401,9 @@ def state_cases():
             for target in ((T1, T2, "x") if name in ("deal", "store") else (T1,)):
                 for nested in ((False, True) if target != "x" else (False,)):
                     out.append({"kind": "state", "name": name, "v": v, "target": target, "nested": nested})
-    out.append({"kind": "etch", "exists": True})
-    out.append({"kind": "etch", "exists": False})
+    for probe in (None, "EXTCODESIZE", "STATICCALL"):
+        out.append({"kind": "etch", "exists": True, "probe": probe})
+        out.append({"kind": "etch", "exists": False, "probe": probe})
     for sh in ADDR_SHAPES:
         out.append({"kind": "addr", "shape": sh})
     for nm in BLOCK_OPS:
@@ -697,7 +713,7 @@ def run_shard(shard):
     elif k == "state":
         for c in shard["cases"]:
             if c["kind"] == "etch":
-                run_prog(acc, etch_spec(c["exists"]), SGRID[:2], f"etch:exists={c['exists']}", dict(c, kind2="state"))
+                run_prog(acc, etch_spec(c["exists"], c.get("probe")), EGRID if c.get("probe") else SGRID[:2], f"etch:exists={c['exists']}:probe={c.get('probe')}", dict(c, kind2="state"))
             elif c["kind"] == "addr":
                 run_prog(acc, addr_spec(c["shape"]), AGRID, f"addr:{','.join(c['shape'])}", dict(c, kind2="state"))
             elif c["kind"] == "fork":
@@ -739,7 +755,7 @@ def replay(case):
         run_prog(acc, prank_spec(case["seq"]), PGRID, "prank:" + ";".join(case["seq"]), case)
     elif k == "state":
         if case["kind"] == "etch":
-            run_prog(acc, etch_spec(case["exists"]), SGRID[:2], f"etch:exists={case['exists']}", case)
+            run_prog(acc, etch_spec(case["exists"], case.get("probe")), EGRID if case.get("probe") else SGRID[:2], f"etch:exists={case['exists']}:probe={case.get('probe')}", case)
         elif case["kind"] == "addr":
             run_prog(acc, addr_spec(case["shape"]), AGRID, f"addr:{','.join(case['shape'])}", case)
         elif case["kind"] == "fork":
